@@ -27,6 +27,8 @@ def run(ctx):
     name_rule(ctx, rid="C15.NAME")   # to_file(name) / from_file(name): the manifest or store file is written under the name given
     from props.c01 import expand_rule
     expand_rule(ctx, syn, rid="C15.EXPAND")   # the CSV writer serialises complex targets through this expansion (set_beginoffset / set_endoffset over Selector::iter)
+    from props.c05 import moved_rule
+    moved_rule(ctx, rid="C15.MOVED")   # a store saved as CSV in a second directory: the per-resource / per-dataset files go along
     ctx.not_decided += ["text of values (the format stores values as text)", "file handling and stand-off members", "identifiers that contain the ';' separator (outside the claim)"]
 
     ti = syn.fn("try_into", self_ty="AnnotationCsv<'a>", trait="TryInto<AnnotationBuilder<'a>>") if syn.find_fns("try_into", trait="TryInto<AnnotationBuilder<'a>>") else None
